@@ -513,10 +513,19 @@ def corpus_round(deck, rd, tier, acc):
         v, vcls = rnd.choice(ok_values(row))
         try:
             obj = resolve(path, prs, s)
-            if isinstance(read(row, obj), Raises):
-                raise ValueError("getter raises on this object")
-        except Exception:  # noqa - an object the walker cannot use is skipped, not judged
+        except Exception:  # noqa - an object the walker cannot reach is skipped, not judged
             acc.count("corpus_objects_skipped")
+            continue
+        first = read(row, obj)
+        if isinstance(first, Raises):
+            # the object is of the kind the row is about and comes from a document an authoring application wrote: a getter
+            # that fails with an internal error (AttributeError, KeyError ...) has no reading to return for it; a ValueError /
+            # TypeError / NotImplementedError is the library saying "not applicable here" and is not judged
+            if str(first) in ("ValueError", "TypeError", "NotImplementedError", "InvalidXmlError"):
+                acc.count("corpus_objects_skipped")
+            else:
+                acc.violation("corpus-getter-raises:%s:%s" % (row.id, first), "%s slide %s %s: reading %s raises %s" % (name, si, path, row.id, first),
+                              {"row": row.id, "mode": "corpus-getter", "deck": deck, "round": rd, "path": path, "slide": si, "tier": tier, "seed": env.seed()})
             continue
         acc.count("corpus_assignments")
         acc.hit(row.id + ":corpus")
